@@ -10,6 +10,7 @@
 #include "spec_rec.h"
 #include "harness_tables.h"
 #include "wf.h"
+#include "spec_step.h"
 
 int nondet_int(void);
 unsigned char nondet_uchar(void);
@@ -28,6 +29,8 @@ struct ghost_t {
   int last_ext_null;
   unsigned char done[USCXML_MAX_NR_STATES_BYTES]; /* states for which raise_done_event was called during the step */
   int phase, last;      /* ORDER_LOG: 0 nothing yet, 1 exits, 2 transition content, 3 entries; index of the last exit/entry */
+  int ans_m[D_T + 1];   /* what is_matched answers for transition t during this step (chosen up front, any value) */
+  int ans_c[D_T + 1];   /* what is_true answers for the condition text of transition t (one answer per text) */
 } G;
 #define g_calls G.calls
 #define g_int_last_null G.int_last_null
@@ -61,9 +64,19 @@ static int stub_is_matched(const uscxml_ctx *ctx, const uscxml_transition *t, co
   __CPROVER_assert(t >= &USCXML_MACHINE.transitions[0] && t < &USCXML_MACHINE.transitions[0] + NT, "C04.callback: is_matched receives a transition of the machine");
   __CPROVER_assert(event == ctx->event && event != 0, "C04.callback: is_matched receives the current event");
   __CPROVER_assert(t->event != 0, "C04.callback: is_matched is asked only for transitions with an event descriptor");
+#ifdef SPEC_ANS
+  if (t >= &USCXML_MACHINE.transitions[0] && t < &USCXML_MACHINE.transitions[0] + NT) return G.ans_m[t - &USCXML_MACHINE.transitions[0]];
+#endif
   return nondet_int();
 }
-static int stub_is_true(const uscxml_ctx *ctx, const char *expr) { g_calls = 1; __CPROVER_assert(expr != 0, "C04.callback: is_true receives an expression"); return nondet_int(); }
+static int stub_is_true(const uscxml_ctx *ctx, const char *expr) {
+  g_calls = 1;
+  __CPROVER_assert(expr != 0, "C04.callback: is_true receives an expression");
+#ifdef SPEC_ANS
+  if (expr != 0) { int ci = sps_cond_index(expr); if (ci >= 0) return G.ans_c[ci]; }
+#endif
+  return nondet_int();
+}
 static int stub_raise_done_event(const uscxml_ctx *ctx, const uscxml_state *state, const uscxml_elem_donedata *donedata) {
   g_calls = 1;
   __CPROVER_assert(state >= &USCXML_MACHINE.states[0] && state < &USCXML_MACHINE.states[0] + NS, "C04.callback: raise_done_event receives a state of the machine");
@@ -189,16 +202,24 @@ static void setup_ctx(void) {
   g_ctx.invoke = stub_invoke;
   g_calls = 0; g_int_last_null = 0; g_ext_calls = 0; g_last_ext_null = 0; g_foreach_budget = 2; g_phase = 0; g_last = 0;
   for (int k = 0; k < USCXML_MAX_NR_STATES_BYTES; k++) G.done[k] = 0;
+  for (int t = 0; t <= D_T; t++) { G.ans_m[t] = nondet_int(); G.ans_c[t] = nondet_int(); }
 }
+
+int wit_ans_m[D_T + 1], wit_ans_c[D_T + 1], wit_sel[D_T + 1];
+unsigned char wit_spec_config[USCXML_MAX_NR_STATES_BYTES];
 
 void h_step(void) {
   setup_ctx();
 
   /* C02 pre-state: pristine (everything empty) or initialised, not finished, Inv */
   int pristine = g_ctx.flags == USCXML_CTX_PRISTINE && all_zero(g_ctx.config) && all_zero(g_ctx.history);
-  int running = (g_ctx.flags & USCXML_CTX_INITIALIZED) && !(g_ctx.flags & (USCXML_CTX_FINISHED | USCXML_CTX_TOP_LEVEL_FINAL)) && inv(&g_ctx);
+  /* TRANSITION_FOUND is transient: set and cleared inside one selection pass, never visible between steps */
+  int running = (g_ctx.flags & USCXML_CTX_INITIALIZED) && !(g_ctx.flags & (USCXML_CTX_FINISHED | USCXML_CTX_TOP_LEVEL_FINAL | USCXML_CTX_TRANSITION_FOUND)) && inv(&g_ctx);
   g_pre_inv = pristine || running;
   g_pre = g_ctx;
+  for (int t = 0; t <= D_T; t++) { wit_ans_m[t] = G.ans_m[t]; wit_ans_c[t] = G.ans_c[t]; }
+  int pre_ans_m[D_T + 1], pre_ans_c[D_T + 1];
+  for (int t = 0; t <= D_T; t++) { pre_ans_m[t] = G.ans_m[t]; pre_ans_c[t] = G.ans_c[t]; }
   wit_pre_flags = g_ctx.flags;
   for (int k = 0; k < USCXML_MAX_NR_STATES_BYTES; k++) { wit_pre_config[k] = g_ctx.config[k]; wit_pre_history[k] = g_ctx.history[k]; wit_pre_invocations[k] = g_ctx.invocations[k]; }
 
@@ -208,7 +229,9 @@ void h_step(void) {
   for (int k = 0; k < USCXML_MAX_NR_STATES_BYTES; k++) { wit_post_config[k] = g_ctx.config[k]; wit_post_history[k] = g_ctx.history[k]; }
   __CPROVER_assert(0, "CANARY step returns");
   if (g_ret == USCXML_ERR_OK) __CPROVER_assert(0, "CANARY step returns OK");
+#if D_TSEL > 0
   if (g_ret == USCXML_ERR_OK && g_pre_inv && !pristine) __CPROVER_assert(0, "CANARY microstep from a legal running configuration");
+#endif
   if (g_pre_inv && pristine) __CPROVER_assert(0, "CANARY initial step from a pristine context");
 
   /* C04 life cycle / idle frame */
@@ -286,12 +309,33 @@ void h_step(void) {
   }
 #endif
 
+#if defined(SPEC_ANS) && !defined(SKIP_HIST)
+  /* C04 step function against the spec function of one microstep (spec_step.h): the configuration after a step
+     that returns OK is the one the Recommendation's algorithm computes from the configuration and history
+     before it and the answers of is_matched / is_true */
+  if (g_pre_inv && g_ret == USCXML_ERR_OK) {
+    int sel[D_T + 1];
+    for (int t = 0; t <= D_T; t++) sel[t] = 0;
+    if (!pristine) {
+      int spont = (g_pre.flags & USCXML_CTX_SPONTANEOUS) != 0;
+      __CPROVER_assert(spont == (g_ctx.event == 0), "C04.select: eventless transitions are tried (with a NULL event) exactly when the previous step took a transition; otherwise an event was dequeued");
+      sps_select(g_pre.config, spont, pre_ans_m, pre_ans_c, g_pre.is_true != 0, sel);
+      int any = 0;
+      for (int t = 0; t < D_T; t++) { wit_sel[t] = sel[t]; if (sel[t]) any = 1; }
+      __CPROVER_assert(any, "C04.select: a step returns OK only if the optimal enabled transition set is not empty");
+    }
+    sps_config(g_pre.config, g_pre.history, sel, pristine, wit_spec_config);
+    __CPROVER_assert(bytes_eq(g_ctx.config, wit_spec_config), "C04.step: the configuration after the step is the one the microstep algorithm of the Recommendation yields (optimal enabled transition set, exit set, entry set with history and default completion)");
+  }
+#endif
+
   /* C02: Inv is inductive */
   if (g_pre_inv && (g_ret == USCXML_ERR_OK || g_ret == USCXML_ERR_IDLE || g_ret == USCXML_ERR_DONE)) {
     __CPROVER_assert(legal_config(g_ctx.config), "C02.legal: the configuration after the step is a legal configuration (3.11)");
 #ifndef SKIP_HIST
     __CPROVER_assert(hist_ok(g_ctx.history), "C02.history: remembered history names states that were simultaneously active below the history's parent");
 #endif
+    __CPROVER_assert(!(g_ctx.flags & USCXML_CTX_TRANSITION_FOUND), "C04.lifecycle: the TRANSITION_FOUND flag is never left set by a step (part of the inductive invariant)");
     __CPROVER_assert(sp_bit(g_ctx.config, 0), "C02.root: the document root stays active until completion");
     __CPROVER_assert(!(g_pre.flags & USCXML_CTX_INITIALIZED) || !(g_ctx.flags == USCXML_CTX_PRISTINE), "C02.root: an initialised context never becomes pristine again (global script and early data run once)");
   }
@@ -316,14 +360,14 @@ void h_glue(void) {
   uscxml_ctx s = s0;
   /* what the loop may change (its assigns clause), constrained by its invariant */
   s.flags = nondet_uchar();
-  __CPROVER_assume((s.flags & 0xF6) == (s0.flags & 0xF6));
+  __CPROVER_assume((s.flags & 0xFE) == (s0.flags & 0xFE));
   s.event = nondet_bool() ? (void *)&g_event_obj : (void *)0;
   for (int k = 0; k < USCXML_MAX_NR_STATES_BYTES; k++) s.invocations[k] = nondet_uchar();
   __CPROVER_assert(0, "CANARY glue reached");
   __CPROVER_assert(s.machine == &USCXML_MACHINE && s.is_matched != 0 && s.raise_done_event != 0 && s.invoke != 0, "glue: loop-invariant states satisfy the step contract's requires (machine, callbacks)");
   __CPROVER_assert((s0.flags & USCXML_CTX_INITIALIZED) ==> (s.flags & USCXML_CTX_INITIALIZED), "glue: loop-invariant states of an initialised context are initialised contexts");
-  int r0 = (s0.flags & USCXML_CTX_INITIALIZED) && !(s0.flags & (USCXML_CTX_FINISHED | USCXML_CTX_TOP_LEVEL_FINAL)) && inv(&s0);
-  int r1 = (s.flags & USCXML_CTX_INITIALIZED) && !(s.flags & (USCXML_CTX_FINISHED | USCXML_CTX_TOP_LEVEL_FINAL)) && inv(&s);
+  int r0 = (s0.flags & USCXML_CTX_INITIALIZED) && !(s0.flags & (USCXML_CTX_FINISHED | USCXML_CTX_TOP_LEVEL_FINAL | USCXML_CTX_TRANSITION_FOUND)) && inv(&s0);
+  int r1 = (s.flags & USCXML_CTX_INITIALIZED) && !(s.flags & (USCXML_CTX_FINISHED | USCXML_CTX_TOP_LEVEL_FINAL | USCXML_CTX_TRANSITION_FOUND)) && inv(&s);
   __CPROVER_assert(r0 == r1, "glue: the C02 pre-state predicate (running with Inv) is the same for all states the loop invariant relates");
   __CPROVER_assert(bytes_eq(s.config, s0.config) && bytes_eq(s.history, s0.history), "glue: configuration and history are outside the loop's frame");
 }
